@@ -41,8 +41,15 @@ def _skip_loc(tk):
             tk.next()
 
 
+DEPTH = 0     # decoys (harness/props/c04.decoys): -1 = the hierarchy without its top level, +1 = one more level on top
+
+
 def build_chain(tk_tokens, levels):
     p = None
+    if DEPTH < 0 and len(levels) >= 2:
+        levels = levels[:-1]
+    if DEPTH > 0:
+        p = Parent(id="assembly1", sequence_type="assembly")
     for (lid, ltype, lseq, place) in reversed(levels):
         seq = Sequence(lseq, Alphabet.NT_STRICT, id=lid, type=ltype) if lseq is not None else None
         loc = None
@@ -55,6 +62,15 @@ def build_chain(tk_tokens, levels):
 
 
 def impl_lift_op(line):
+    global DEPTH
+    if line.startswith("@depth"):
+        # decoy: the same operation on the same levels in a hierarchy of another depth (answer discarded by the engine)
+        head, rest = line.split(" ", 1)
+        DEPTH = -1 if head.endswith("-1") else 1
+        try:
+            return impl_lift_op(rest)
+        finally:
+            DEPTH = 0
     toks = line.split()
     tk = Toks(toks)
     op = tk.next()
